@@ -234,3 +234,71 @@ register(PropertySpec(
     assumptions=["cls_args lists the parameters of __init__ with self first (update_cls_args)"],
     design_ref="DESIGN.md §2 C13",
 ))
+
+from . import cacheidx
+
+register(PropertySpec(
+    id="C20",
+    title="the result-cache index returns exactly the stored entries matching a lookup",
+    rules=[
+        Rule("CLEAR-COMPLETE", cacheidx.rule_clear_complete, 4,
+             "writer/clearer agreement computed from field effects: every field IndexedCache.insert stores into is "
+             "emptied by clear(); SeenSet and HashedIterable clear everything their mutators write"),
+        Rule("RESULT-NO-ALIAS", cacheidx.rule_result_no_alias, 2,
+             "in retrieve() a binding extended per cache branch is a fresh copy per branch, and the accumulator starts "
+             "from a copy of the lookup"),
+    ],
+    explanation="Decides 'clearing empties it' (the set of fields written by insert is contained in the set reset by "
+                "clear, computed from effects with alias tracking) and one necessary condition of 'each entry paired "
+                "with that entry's binding merged into the lookup' (no aliasing between the bindings of sibling "
+                "entries). The coverage test, wildcard walk and merge are an algorithm over runtime dictionaries and "
+                "are NOT decided.",
+    assumptions=[],
+    design_ref="DESIGN.md §2 C20",
+))
+
+register(PropertySpec(
+    id="C05",
+    title="result caching is transparent",
+    rules=[
+        Rule("CACHE-SWITCH", cacheidx.rule_cache_switch, 6,
+             "every result-cache read in an evaluation generator is reachable only when is_caching_enabled() holds "
+             "(truth table of its guards), given that writes are suppressed when caching is disabled"),
+    ],
+    explanation="Decides that the runtime switch governs reads and writes consistently: the asymmetric state (reads "
+                "unguarded, writes guarded) changes results because an empty lookup marks everything covered. Not "
+                "decided: that a cache hit returns what evaluation would have returned (subsumption test and wildcard "
+                "walk over runtime bindings, see C20).",
+    assumptions=["the claim is limited to the switch"],
+    design_ref="DESIGN.md §2 C05",
+))
+
+from . import registry
+
+register(PropertySpec(
+    id="C14",
+    title="a variable without a domain ranges over exactly the live registry of instances",
+    rules=[
+        Rule("REG-WRITER", registry.rule_reg_writer, 1,
+             "who-may-write: the only construct that adds to / removes from / clears the instance registry is the "
+             "insert in instantiate_class_and_update_cache"),
+        Rule("REG-MUST", registry.rule_reg_must, 5,
+             "concrete arm of hybrid_new: every path to return passes exactly one registering call; the writer allocates "
+             "the runtime class, inserts the fresh instance exactly once on every path and returns it"),
+        Rule("REG-KEY", registry.rule_reg_key, 1,
+             "the registry key is the runtime class argument of __new__ (reported by REG-MUST's scan of the insert)"),
+        Rule("REG-LOOKUP", registry.rule_reg_lookup, 2,
+             "lookup selects stores by issubclass(stored, requested) and yields from all of them"),
+        Rule("REG-BRANCH", registry.rule_reg_branch, 2,
+             "call-graph closure of the symbolic arm reaches neither the writer nor the allocator; it returns only "
+             "expression objects"),
+        Rule("REG-INFER", registry.rule_reg_infer, 2,
+             "rule inference constructs through the class call (registering arm); nothing else allocates user objects"),
+    ],
+    explanation="Registry discipline is ownership: a single writer, on a must-pass-through path of the concrete "
+                "constructor arm, keyed by the runtime class; the symbolic arm provably (call-graph closure) cannot "
+                "register or allocate; lookup includes subclasses. Not decided: that the class's own __init__ then "
+                "succeeds for every construction style (Python's semantics).",
+    assumptions=["C08/C09 (mode confinement) for which arm runs", "the flat store de-duplicates by identity (HashedIterable.add)"],
+    design_ref="DESIGN.md §2 C14",
+))
